@@ -19,11 +19,22 @@ def units():
         U.append({"name": "ima.ima_read_block.ch%d" % ch, "props": ["C05", "C15", "C06"], "harness": "ima_read.harness.c", "entry": "h_ima_read_block", "enforce": "ima_read_block",
                   "function": "ima_adpcm.c:ima_read_block", "defines": ["-DCH=%d" % ch], "timeout": 900, "backend": "kissat", "cbmc_flags": ["--object-bits", "9"],
                   "loops": {"ima_read_block": [{"loop_id": 0, "assigns_locals": True,
-                            "assigns": "pima->blockcount, pima->samplecount, g_decode_calls, g_zero_filled, g_zero_from, psf->error, __CPROVER_object_whole (ptr), __CPROVER_object_whole (pima->samples)",
+                            "assigns": "pima->blockcount, pima->samplecount, g_decode_calls, g_decode_failed, g_zero_filled, g_zero_from, psf->error, __CPROVER_object_whole (ptr), __CPROVER_object_whole (pima->samples)",
                             "invariants": ("0 <= indx && indx <= len && indx % CHV == 0 && total == indx && 0 <= pima->samplecount && pima->samplecount <= 9 && 0 <= pima->blockcount && pima->blockcount <= (1 << 24) "
-                                           "&& 0 <= g_decode_calls && g_decode_calls <= (1 << 22) && g_zero_filled == 0 "
+                                           "&& 0 <= g_decode_calls && g_decode_calls <= (1 << 22) && g_zero_filled == 0 && g_decode_failed == 0 "
                                            "&& (long) indx == ((long) g_decode_calls * 9 + pima->samplecount - vin_sc) * CHV").replace("CHV", str(ch)),
                             "decreases": "2 * (len - indx) + (pima->samplecount >= 9 ? 1 : 0)"}]},
+                  "kind": "enumerated(samples per block 9, channels=%d)" % ch,
+                  "trusted": ["decode_block_c: effect of the block decoders on the reader state (frame contract)", "E1 memcpy / memset models for symbolic lengths (ranges asserted)"]})
+    for ch in (1, 2):
+        U.append({"name": "msadpcm.msadpcm_read_block.ch%d" % ch, "props": ["C05", "C15", "C06"], "harness": "ima_read.harness.c", "entry": "h_ima_read_block", "enforce": "msadpcm_read_block", "replace": ["msadpcm_decode_block"],
+                  "function": "ms_adpcm.c:msadpcm_read_block", "defines": ["-DCH=%d" % ch, "-DLAYOUT_MS"], "timeout": 900, "backend": "kissat", "cbmc_flags": ["--object-bits", "9"],
+                  "loops": {"msadpcm_read_block": [{"loop_id": 0, "assigns_locals": True,
+                            "assigns": "pms->blockcount, pms->samplecount, g_decode_calls, g_decode_failed, g_zero_filled, g_zero_from, psf->error, __CPROVER_object_whole (ptr), __CPROVER_object_whole (pms->samples)",
+                            "invariants": ("0 <= indx && indx <= len && indx % CHV == 0 && total == indx && 0 <= pms->samplecount && pms->samplecount <= 9 && 0 <= pms->blockcount && pms->blockcount <= (1 << 24) "
+                                           "&& 0 <= g_decode_calls && g_decode_calls <= (1 << 22) && g_zero_filled == 0 && g_decode_failed == 0 "
+                                           "&& (long) indx == ((long) g_decode_calls * 9 + pms->samplecount - vin_sc) * CHV").replace("CHV", str(ch)),
+                            "decreases": "2 * (len - indx) + (pms->samplecount >= 9 ? 1 : 0)"}]},
                   "kind": "enumerated(samples per block 9, channels=%d)" % ch,
                   "trusted": ["decode_block_c: effect of the block decoders on the reader state (frame contract)", "E1 memcpy / memset models for symbolic lengths (ranges asserted)"]})
     for lay, fn, chs in (("PAF", "paf24_seek", (1, 2)), ("SDS", "sds_seek", (1,))):
